@@ -44,3 +44,107 @@ class DryAnalyzeOnlyItsLanguages:
                "min_constant_occurrences": 2, "python_min_constant_occurrences": None, "typescript_min_constant_occurrences": None}
         return {"self": {}, "file_path": pathlib.Path("lib.rs"), "content": "fn f() {\n" + _BRACE_CODE + "}\n", "language": "rust",
                 "config": cfg}
+
+
+# ------------------------------------------------------------------------------------------ the language guards of single-language rules
+# Rules with their own check() sit behind `_should_analyze` (c15-language-guards checks that check() starts with it). Here
+# the guards themselves: whatever else they test, they hold only for the documented language of the rule and a file
+# with content.
+from pyvc import api as _api  # noqa: E402
+from pyvc.api import Bool, Int, SeqOf, Rec, Opt  # noqa: E402
+from contracts.c15_language import CtxT, CfgT  # noqa: E402
+from contracts import c09_path_predicates, c11_containment  # noqa: E402,F401  (is_ignored_path / resolve_file_path contracts)
+
+L = "src/linters/"
+RustCfgT = Rec("RustRuleConfig", enabled=Bool, ignore=SeqOf(Str), key=Int)
+GUARD_INLINE = ["has_file_content"]
+
+
+def rust_only(context, result):
+    return implies(result, context.language == "rust" and context.file_content is not None)
+
+
+def python_only(context, result):
+    return implies(result, context.language == "python" and context.file_content is not None)
+
+
+@contract(L + "unwrap_abuse/linter.py::UnwrapAbuseRule._should_analyze", props=["C15", "C17"],
+          types=dict(self=Rec("UnwrapAbuseRule", cls=L + "unwrap_abuse/linter.py::UnwrapAbuseRule"), context=CtxT, config=RustCfgT),
+          returns=Bool, inline=GUARD_INLINE)
+class UnwrapShouldAnalyze:
+    def ensures_rust_only(context, result):
+        return rust_only(context, result)
+
+    def ensures_disabled_never(config, result):
+        return implies(result, config.enabled)
+
+
+@contract(L + "clone_abuse/linter.py::CloneAbuseRule._should_analyze", props=["C15", "C17"],
+          types=dict(self=Rec("CloneAbuseRule", cls=L + "clone_abuse/linter.py::CloneAbuseRule"), context=CtxT, config=RustCfgT),
+          returns=Bool, inline=GUARD_INLINE)
+class CloneShouldAnalyze:
+    def ensures_rust_only(context, result):
+        return rust_only(context, result)
+
+    def ensures_disabled_never(config, result):
+        return implies(result, config.enabled)
+
+
+@contract(L + "blocking_async/linter.py::BlockingAsyncRule._should_analyze", props=["C15", "C17"],
+          types=dict(self=Rec("BlockingAsyncRule", cls=L + "blocking_async/linter.py::BlockingAsyncRule"), context=CtxT, config=RustCfgT),
+          returns=Bool, inline=GUARD_INLINE)
+class BlockingShouldAnalyze:
+    def ensures_rust_only(context, result):
+        return rust_only(context, result)
+
+    def ensures_disabled_never(config, result):
+        return implies(result, config.enabled)
+
+
+@contract(L + "collection_pipeline/linter.py::CollectionPipelineRule._should_analyze", props=["C15"],
+          types=dict(self=Rec("CollectionPipelineRule", cls=L + "collection_pipeline/linter.py::CollectionPipelineRule"), context=CtxT),
+          returns=Bool)
+class PipelineShouldAnalyze:
+    def value(context):
+        return context.language == "python" and context.file_content is not None
+
+
+@contract(L + "stateless_class/linter.py::StatelessClassRule._should_analyze", props=["C15"],
+          types=dict(self=Rec("StatelessClassRule", cls=L + "stateless_class/linter.py::StatelessClassRule"), context=CtxT),
+          returns=Bool)
+class StatelessShouldAnalyze:
+    def value(context):
+        return context.language == "python" and context.file_content is not None
+
+
+CVRuleT = Rec("ConditionalVerboseRule", cls=L + "print_statements/conditional_verbose_rule.py::ConditionalVerboseRule")
+CV = L + "print_statements/conditional_verbose_rule.py::ConditionalVerboseRule."
+
+
+@contract(CV + "_load_config", props=["C15"], types=dict(self=CVRuleT, context=CtxT), returns=CfgT,
+          assumed="configuration loading (C05): interface only")
+class CVLoadConfig:
+    def ensures(result):
+        return True
+
+
+@contract(CV + "_is_file_ignored~c15", props=["C15"], types=dict(self=CVRuleT, context=CtxT, config=CfgT), returns=Bool,
+          assumed="ignore-pattern matching (C04 proves its value under a precondition on the patterns): interface only")
+class CVIsFileIgnoredInterface:
+    def ensures(result):
+        return True
+
+
+@contract(CV + "_should_analyze", props=["C15"], types=dict(self=CVRuleT, context=CtxT, config=CfgT), returns=Bool,
+          inline=GUARD_INLINE, callee_view="c15")
+class CVShouldAnalyze:
+    def ensures_python_only(context, result):
+        return python_only(context, result)
+
+
+# ---- rules whose dispatch is proved elsewhere with the exact value (other languages => []): they carry C15 too
+for _t in (L + "srp/linter.py::SRPRule._dispatch_by_language", L + "srp/linter.py::SRPRule.check",
+           "src/linters/dry/file_analyzer.py::FileAnalyzer.analyze"):
+    _c = _api.REGISTRY.get(_t)
+    if _c is not None and "C15" not in _c.props:
+        _c.props.append("C15")
